@@ -74,7 +74,8 @@ def run(module, cfg, *, workers=16, timeout=600, env=None, simulate=None, depth=
     cfgp = os.path.join(d, module + ".cfg")
     with open(cfgp, "w") as f:
       f.write(cfg)
-    cmd = ["java", "-XX:+UseParallelGC", "-Xmx" + heap]
+    cmd = ["java", "-Xmx" + heap]
+    cmd += ["-XX:+UseSerialGC", "-XX:ActiveProcessorCount=2"] if workers == 1 else ["-XX:+UseParallelGC"]
     if dfs:
       cmd.append("-Dtlc2.tool.queue.IStateQueue=StateDeque")
     cmd += ["-cp", JAR, "tlc2.TLC", "-workers", str(workers),
